@@ -1,5 +1,6 @@
 (* C12 - UDP listener socket lives exactly as long as the listener or an accepted conn. *)
 From Tx Require Import Common.Base UdpListener.Model UdpListener.Proofs.
+From Tx Require UdpListener.Conc.
 
 (* For every history of datagram arrivals, Accept, Conn.Read, Conn.Close (of accepted
    connections) and listener Close, in any order: the shared socket is closed exactly when the
@@ -47,6 +48,38 @@ Proof.
     rewrite (nth_upd_conn_same _ _ _ c0 E0) in E. inversion E; subst. simpl in Ec. discriminate.
 Qed.
 Print Assumptions C12_close_idempotent.
+
+(* ---- all interleavings (UdpListener/Conc.v): the read loop inside getConn, listener Close, any number of Accept calls and
+   connection Closes, and the closer goroutine, one synchronisation operation per step ------------------------------------ *)
+
+(* the socket is closed only after the listener has dropped its reference and every connection handed out by Accept
+   has been closed; and the WaitGroup counter is exactly: listener reference + queued + accepted-and-open + in flight *)
+Theorem C12_conc_never_earlier : forall cap h s, Conc.crun (Conc.c_init cap) h = Some s ->
+  (Conc.sock_closed s = true -> Conc.lref s = false /\ Conc.n_open s = 0) /\
+  Conc.wg s = b2z (Conc.lref s) + Conc.qlen s + Conc.n_open s + Conc.inflight s.
+Proof.
+  intros cap h s H. pose proof (Conc.crun_inv h _ _ (Conc.cinv_init cap) H) as I. destruct I. split; assumption.
+Qed.
+Print Assumptions C12_conc_never_earlier.
+
+(* once listener Close has finished nothing is queued any more, so no Accept can return a connection; and when nothing can
+   move any more, the listener is closed and no accepted connection is open, the socket has been closed *)
+Theorem C12_conc_closed_in_the_end : forall cap h s, Conc.crun (Conc.c_init cap) h = Some s -> Conc.lc s = Conc.L7 ->
+  Conc.cstep s Conc.EAccept = None /\ (Conc.quiescent s -> Conc.n_open s = 0 -> Conc.sock_closed s = true).
+Proof.
+  intros cap h s H Hl. pose proof (Conc.crun_inv h _ _ (Conc.cinv_init cap) H) as I. split.
+  - destruct I as [_ _ _ _ _ _ DR _]. simpl. rewrite DR by auto. reflexivity.
+  - intros Q Hn. apply Conc.quiescent_closed; assumption.
+Qed.
+Print Assumptions C12_conc_closed_in_the_end.
+
+(* non-vacuity: a connection is queued while the listener closes, Accept takes it before the drain, it is closed last *)
+Example C12_conc_example :
+  exists s, Conc.crun (Conc.c_init 2)
+    [Conc.ERlEnter false; Conc.ERlAdd; Conc.ELcStore; Conc.ELcCloseDone; Conc.ERlSend; Conc.EAccept; Conc.ERlUnlock;
+     Conc.ELcLock; Conc.ELcDrainEnd; Conc.ELcUnlock; Conc.ELcRelease; Conc.ECcDone; Conc.ECloser] = Some s
+  /\ Conc.sock_closed s = true /\ Conc.wg s = 0.
+Proof. eexists. vm_compute. auto. Qed.
 
 Example C12_example :
   udp_run [2; 0] [[1; 7; 1; 2]; [1; 8; 3]; [2]; [5]; [1; 7; 9]; [1; 9; 5]; [3; 0; 10]; [3; 0; 10]; [2]; [4; 0]]
